@@ -122,6 +122,10 @@ func c02Refs() []refOrder {
 		adapterOrder("maven", semver.Maven, gen.MavenDomain, ref.Maven, false, [][2]string{
 			{ref.Q("cmp", "1.0-alpha", "1.0"), "-1"}, {ref.Q("cmp", "1.0-rc1", "1.0-beta2"), "1"}, {ref.Q("cmp", "1.0", "1.0.0"), "0"},
 			{ref.Q("cmp", "1.0-sp", "1.0"), "1"}, {ref.Q("cmp", "1.0-SNAPSHOT", "1.0"), "-1"}, {ref.Q("cmp", "2", "10"), "-1"}}),
+		// The qualifier attached with a dot (4.1.0.Final): same reference, own
+		// name, so that the open finding about this shape is identified by it.
+		adapterOrder("maven-dot-qualifier", semver.Maven, gen.MavenDotQualifier, ref.Maven, false, [][2]string{
+			{ref.Q("cmp", "1.0.Final", "1.0"), "0"}, {ref.Q("cmp", "1.0.0.RC1", "1.0-rc1"), "0"}}),
 		modelOrder("rubygems", semver.RubyGems, gen.Gem, model.GemValid, model.GemCompare, model.GemCompare2),
 		modelOrder("nuget", semver.NuGet, gen.NuGet, model.NuGetValid, model.NuGetCompare, model.NuGetCompare2),
 	}
@@ -205,6 +209,9 @@ func c02(r *ev.Run, replay string) {
 				}()
 				rng := r.Rand(fmt.Sprintf("%s/%d", ro.name, sh))
 				accept := func(s string) bool {
+					if ro.name == "maven-dot-qualifier" {
+						return gen.MavenInDotDomain(s)
+					}
 					return ro.sys != semver.Maven || gen.MavenInDomain(s)
 				}
 				var cands []string
